@@ -88,8 +88,9 @@ class HQL:
         |  STRING EQ id
         |  STRING id"""
         p_list = remove_par(list(p))
-        if "state" in self.lexer.__dict__:
-            p[0] = {p[1]: self.lexer.state.get(p_list[-1])}
+        state = self.lexer.__dict__.get("state") or {}
+        if p_list[-1] in state:
+            p[0] = {p[1]: state[p_list[-1]]}
         else:
             if "=" in p_list[-1]:
                 p_list[-1] = p_list[-1].split("=")[-1]
